@@ -103,6 +103,8 @@ def lik_case(ctx, rng, reqs, meta):
     A = rs.randn(d, d) * rng.choice([0.3, 1.0]) + np.eye(d)
     ssx = rs.randn(n, d) @ A.T + rs.randn(d)
     far = rng.random() < .3
+    if rng.random() < .3:
+        ssx = np.asfortranarray(ssx) if rng.random() < .5 else np.ascontiguousarray(ssx[:, ::-1])[:, ::-1]     # same values, other memory layout / a strided view
     y = ssx.mean(0) + (rng.choice([3.0, 8.0]) if far else 0.3) * rs.randn(d)
     kind = rng.choice(['standard', 'standard-whiten', 'standard-warton', 'unbiased', 'unbiased', 'mean', 'variance'])
     if kind == 'standard-whiten' and d == 1:
